@@ -205,7 +205,7 @@ fn blob_rt<const L: usize>() {
 vk_h!(c01_blob_len0, 12, {
     blob_rt::<0>();
 });
-// VK: prop=C01 tier=thorough cap=1200
+// VK: prop=C01 tier=thorough cap=2400
 // VK-funcs: as c01_blob_len0
 // VK-bounds: every blob of 3 bytes
 vk_h!(c01_blob_len3, 12, {
